@@ -1,7 +1,6 @@
 package files
 
 import (
-	"fmt"
 	"os"
 	"strings"
 )
@@ -46,7 +45,6 @@ func ParsePath(path string) *Path {
 			}
 		}
 	}
-	fmt.Printf("%+v\n", entries)
 	return &Path{entries}
 }
 
